@@ -142,6 +142,9 @@ def scenarios(tier, seed):
     # (2) back-to-back histories on the same objects (all pairs; triples in thorough), incl. the Dm14Query client
     hl = [1, 7, 8, 9, 16] if quick else [1, 7, 8, 9, 16, 255]
     singles = [rd(0x1000, n) for n in hl] + [wr(0x1000, n) for n in hl]
+    # signed / converted reads and writes of values with the top bit set, object sizes 1 and 2
+    singles += [rd(0x1000, 8, 1, True, False), rd(0x1000, 8, 2, True, False), rd(0x1000, 4, 2, False, False),
+                wr(0x1000, 8, 1, 1, 1), wr(0x1000, 8, 2, 1, 1), wr(0x1000, 4, 2, 1, 3)]
     for sd in (None, 0xA55A):
         for a in singles:
             for b in singles:
